@@ -15,27 +15,27 @@ Proof. exact capi_row_agrees. Qed.
 Print Assumptions C01_capi_rows.
 
 Theorem C01_param_abi_prim : forall env sp p mu,
-  (c_decl_abi env (PV (VPrim p)) = Some (norm (ffi_param_abi env (PV (VPrim p))))) /\
-  (c_decl_abi env (POpt sp (VPrim p)) = Some (norm (ffi_param_abi env (POpt sp (VPrim p))))) /\
-  (c_decl_abi env (PSlice p mu) = Some (norm (ffi_param_abi env (PSlice p mu)))) /\
-  (c_decl_abi env (POptSlice p) = Some (norm (ffi_param_abi env (POptSlice p)))).
+  option_map norm (c_decl_abi env (PV (VPrim p))) = Some (norm (ffi_param_abi env (PV (VPrim p)))) /\
+  option_map norm (c_decl_abi env (POpt sp (VPrim p))) = Some (norm (ffi_param_abi env (POpt sp (VPrim p)))) /\
+  option_map norm (c_decl_abi env (PSlice p mu)) = Some (norm (ffi_param_abi env (PSlice p mu))) /\
+  option_map norm (c_decl_abi env (POptSlice p)) = Some (norm (ffi_param_abi env (POptSlice p))).
 Proof. exact param_abi_agrees_prim. Qed.
 Print Assumptions C01_param_abi_prim.
 
 Theorem C01_param_abi_other : forall env sp n mu w,
-  c_decl_abi env (PV (VEnum n)) = Some (norm (ffi_param_abi env (PV (VEnum n)))) /\
-  c_decl_abi env (POpt sp (VEnum n)) = Some (norm (ffi_param_abi env (POpt sp (VEnum n)))) /\
-  c_decl_abi env (PORef mu) = Some (norm (ffi_param_abi env (PORef mu))) /\
-  c_decl_abi env POOpt = Some (norm (ffi_param_abi env POOpt)) /\
-  c_decl_abi env PWrite = Some (norm (ffi_param_abi env PWrite)) /\
-  c_decl_abi env (PStr w) = Some (norm (ffi_param_abi env (PStr w))) /\
-  c_decl_abi env POptStr = Some (norm (ffi_param_abi env POptStr)).
+  option_map norm (c_decl_abi env (PV (VEnum n))) = Some (norm (ffi_param_abi env (PV (VEnum n)))) /\
+  option_map norm (c_decl_abi env (POpt sp (VEnum n))) = Some (norm (ffi_param_abi env (POpt sp (VEnum n)))) /\
+  option_map norm (c_decl_abi env (PORef mu)) = Some (norm (ffi_param_abi env (PORef mu))) /\
+  option_map norm (c_decl_abi env POOpt) = Some (norm (ffi_param_abi env POOpt)) /\
+  option_map norm (c_decl_abi env PWrite) = Some (norm (ffi_param_abi env PWrite)) /\
+  option_map norm (c_decl_abi env (PStr w)) = Some (norm (ffi_param_abi env (PStr w))) /\
+  option_map norm (c_decl_abi env POptStr) = Some (norm (ffi_param_abi env POptStr)).
 Proof. exact param_abi_agrees_other. Qed.
 Print Assumptions C01_param_abi_other.
 
 Theorem C01_param_abi_struct : forall env sp n,
   is_zst (env n) = false -> norm (env n) = env n ->
-  c_decl_abi env (PV (VStruct n)) = Some (norm (ffi_param_abi env (PV (VStruct n)))) /\
-  c_decl_abi env (POpt sp (VStruct n)) = Some (norm (ffi_param_abi env (POpt sp (VStruct n)))).
+  option_map norm (c_decl_abi env (PV (VStruct n))) = Some (norm (ffi_param_abi env (PV (VStruct n)))) /\
+  option_map norm (c_decl_abi env (POpt sp (VStruct n))) = Some (norm (ffi_param_abi env (POpt sp (VStruct n)))).
 Proof. exact param_abi_agrees_struct. Qed.
 Print Assumptions C01_param_abi_struct.
